@@ -1,2 +1,3 @@
 pub mod a;
+pub mod b;
 pub mod c19;
